@@ -67,4 +67,40 @@ var targets = []Target{
 		Dir:    "internal/caching",
 		Funcs:  []string{"ascii2Int", "DJBHash32"},
 	},
+	// ---- abstract-environment mode (abs.go): decision functions over option structs / descriptors ----
+	{
+		// flag bits shared with native/thrift.h
+		Module: "Gen_nativetypes",
+		Dir:    "internal/native/types",
+		Consts: []string{"F_ALLOW_UNKNOWN", "F_WRITE_DEFAULT", "F_VALUE_MAPPING", "F_HTTP_MAPPING", "F_STRING_INT", "F_WRITE_REQUIRE",
+			"F_NO_BASE64", "F_WRITE_OPTIONAL", "F_TRACE_BACK"},
+	},
+	{
+		// C02 / C16 / C17: option -> native flag bits
+		Module: "Gen_j2tflags",
+		Dir:    "conv/j2t",
+		Mode:   "abs",
+		Funcs:  []string{"toFlags"},
+	},
+	{
+		// C16 / C11 / C14: requiredness -> bitmap value, and the decisions taken for a marked bit
+		Module: "Gen_thriftreq",
+		Dir:    "thrift",
+		Mode:   "abs",
+		Consts: []string{"OptionalRequireness", "DefaultRequireness", "RequiredRequireness"},
+		Funcs:  []string{"convertRequireness"},
+		Blocks: []Block{
+			{Func: "RequiresBitmap.CheckRequires", Name: "CheckRequires_marked", Anchor: "v%2 == 1"},
+			{Func: "RequiresBitmap.HandleRequires", Name: "HandleRequires_marked", Anchor: "v%2 == 1"},
+		},
+	},
+	{
+		// C15 / C07 / C20: kind tables of the Protobuf descriptors
+		Module: "Gen_protokind",
+		Dir:    "proto",
+		Mode:   "abs",
+		Funcs: []string{"Type.TypeToKind", "Type.IsPacked", "Type.NeedVarint", "Type.IsInt", "TypeDescriptor.IsPacked", "TypeDescriptor.IsMap",
+			"TypeDescriptor.IsList", "TypeDescriptor.WireType"},
+		Tables: []string{"Kind2Wire"},
+	},
 }
